@@ -17,3 +17,15 @@ package types
 //@   ensures additive_and_multiplicative_tokens: (t.Operator == dsl.BinaryOpAdd ==> emittedHere("+") == 1) && (t.Operator == dsl.BinaryOpSub ==> emittedHere("-") == 1) && (t.Operator == dsl.BinaryOpMul ==> emittedHere("*") == 1) && (t.Operator == dsl.BinaryOpPow ==> emittedHere("**") == 1)
 //@   ensures integer_division_floors: t.Operator == dsl.BinaryOpDiv && dsl.IsIntegralType(t.ResolvedType) ==> emittedHere("//") == 1 && emittedHere("/") == 0
 //@   ensures floating_division_is_true_division: t.Operator == dsl.BinaryOpDiv && !dsl.IsIntegralType(t.ResolvedType) ==> emittedHere("/") == 1 && emittedHere("//") == 0
+
+// Output and diagnostics may not depend on the iteration order of a Go map (C12): decided per `range` over a map.
+//@ map-order C12 package
+
+// docs/reference/binary.md: the tag of a union value is the index of its case; for a union with a null option the
+// runtime reserves 0 for null and adds 1 to the index of the case class. The case classes are therefore numbered
+// 0, 1, 2, ... over the non-null cases, in declaration order, whether or not the union has a null option.
+//@ func writeUnionClass
+//@   property C03,C14
+//@   requires generalizedType != nil
+//@   invariant 0: i == emitted("%s.%s = type(\"%s.%s\", (%s,), {\"index\": %d, \"tag\": \"%s\"})\n")
+//@   iteration 0: non_null_cases_are_numbered_consecutively: (tc.Type != nil ==> emitted("%s.%s = type(\"%s.%s\", (%s,), {\"index\": %d, \"tag\": \"%s\"})\n") == 1 && emittedArg("%s.%s = type(\"%s.%s\", (%s,), {\"index\": %d, \"tag\": \"%s\"})\n", 0, 5, int) == i && emittedArg("%s.%s = type(\"%s.%s\", (%s,), {\"index\": %d, \"tag\": \"%s\"})\n", 0, 6, string) == tc.Tag) && (tc.Type == nil ==> emitted("%s.%s = type(\"%s.%s\", (%s,), {\"index\": %d, \"tag\": \"%s\"})\n") == 0)
